@@ -12,9 +12,11 @@ class EmptyCell:       # encodes as the blank object (core.enc looks at the type
 
 
 BLANK = EmptyCell()
-NUMS = [0, 1, 2, 3, 7, 10, -1, -4, 100, 2.5, 0.25, -1.5, 1024.125, 3.0, 1e3, 0.5, 12345678, -0.75,
-        # dyadic values with more than 15 significant decimal digits (sums of a few of them are still exact): a total is never rounded to 15 digits
-        1 + 2.0 ** -40, 2 + 2.0 ** -42, 0.5 + 2.0 ** -44, 3 - 2.0 ** -41]
+COARSE = [0, 1, 2, 3, 7, 10, -1, -4, 100, 2.5, 0.25, -1.5, 1024.125, 3.0, 1e3, 0.5, 12345678, -0.75]
+# small dyadic values with more than 15 significant decimal digits: every sum of a workbook of them fits in 53 bits (|sum| < 2^8, steps of 2^-44), so it is
+# exact in any order - and a total that were rounded to 15 digits would differ
+FINE = [1 + 2.0 ** -40, 2 + 2.0 ** -42, 0.5 + 2.0 ** -44, 3 - 2.0 ** -41, 1, 2, 0.5, -1.5, 0.25, 0, -1]
+NUMS = list(COARSE)          # the pool of the current workbook (one workbook at a time): COARSE or FINE, never mixed (a mix would make partial sums inexact)
 TEXTS = ['x', 'abc', '7', '12', '', 'TRUE', '-3', '1.5', '#N/A ']
 OTHER = [True, False, None, None, None]
 DATES = [datetime.datetime(2024, 2, 29), datetime.datetime(1999, 12, 31, 23, 59)]
@@ -45,6 +47,7 @@ class Book:
 
     def __init__(self, rng, with_dates=False, with_errs=False):
         self.rng = rng
+        NUMS[:] = FINE if rng.random() < 0.3 else COARSE
         self.w = [rng.randint(2, 5), rng.randint(1, 4)]
         self.h = [rng.randint(2, 7), rng.randint(1, 5)]
         self.title1 = rng.choice(['Other', 'Other sheet', 'Data_2'])
@@ -192,8 +195,28 @@ def run(tier, seed):
             chk.judge('e2e-' + fn + ('-special' if special else ''), cases, canon=canon_for(fn), sample_cap=1)
         # split law on the real code: SUM(X,Y) = SUM(X)+SUM(Y), COUNT likewise
         laws = []
-        for _ in range(10):
-            (tx, _), (ty, _) = book.area(), book.area()
+        from fractions import Fraction
+
+        def exact_total(rows_list):
+            q = Fraction(0)
+            for rows in rows_list:
+                for row in rows:
+                    for v in row:
+                        if type(v) in (int, float):
+                            q += Fraction(v)
+            return q
+
+        def representable(q):
+            try:
+                return Fraction(float(q)) == q
+            except OverflowError:
+                return False
+        while len(laws) < 40:
+            (tx, rx), (ty, ry) = book.area(), book.area()
+            # the law is about exact sums: it is only stated where the three totals are doubles (then no summation order can matter)
+            if not (representable(exact_total([rx])) and representable(exact_total([ry])) and representable(exact_total([rx, ry]))):
+                chk.count('law:split:skipped-inexact')
+                continue
             laws += ['=SUM(%s,%s)' % (tx, ty), '=SUM(%s)+SUM(%s)' % (tx, ty), '=COUNT(%s,%s)' % (tx, ty), '=COUNT(%s)+COUNT(%s)' % (tx, ty)]
         lo = realcode.eval_formulas(laws, values, extra_sheets=[(book.title1, book.data[1])], min_rows=per)
         for i in range(0, len(laws), 2):
